@@ -44,8 +44,11 @@ class World(Env):
             if "{closure" in name or not name.startswith("expr::eval::"):
                 continue
             ptys = [t for _, t in f.params]
-            if ptys and all(t == "value::Value" for t in ptys) and f.ret == "std::result::Result<value::Value, error::Error>":
-                self.recorders[name] = len(ptys)
+            # an operator function: synchronous, takes its operand(s) as Values (possibly with extra non-expression parameters such as a
+            # comparison selector) and returns Result<Value>
+            if (any(t == "value::Value" for t in ptys) and f.ret == "std::result::Result<value::Value, error::Error>"
+                    and not any("expr::Expr" in t or "EvalContext" in t for t in ptys)):
+                self.recorders[name] = [i for i, t in enumerate(ptys) if t == "value::Value"]
 
     def begin(self, ex):
         super().begin(ex)
@@ -89,7 +92,7 @@ class World(Env):
             if f is not None and f.name in self.recorders:
                 n = self.n_apply
                 self.n_apply += 1
-                terms = [ex.to_val(a) for a in args]
+                terms = [ex.to_val(args[i]) for i in self.recorders[f.name]]
                 ex.log.append(("apply", f.name.split("::")[-1], terms))
                 okb = z3.Bool(f"apply{n}.ok")
                 if ex.choose([("ok", okb), ("err", z3.Not(okb))], "apply-result") == "ok":
@@ -483,7 +486,7 @@ def dispatcher_obligations(run, prog, tier, only=None, pendings=1, kinds=None, p
             oid = f"{prefix}_{vname}{suffix}"
             if only and only not in oid:
                 continue
-            world = World(prog)
+            world = World(prog, record_ops=vname in called)
             world.max_pending = pendings
 
             def body(ex, build=build, world=world):
